@@ -29,6 +29,7 @@ type Case struct {
 	Policies []*ir.Policy `json:"policies"`
 	World    gen.World    `json:"world"`
 	Loader   string       `json:"loader"` // document | add | iterator | iterator-dup | nil-entities
+	World2   *gen.World   `json:"world2,omitempty"` // optional second store + request for a second call on the same policies
 	Order    []int        `json:"order,omitempty"`
 	Seps     []string     `json:"seps,omitempty"` // document loader: text before each policy
 }
@@ -163,6 +164,22 @@ func check(c *Case) (string, string) {
 	}
 	if !sameMultiset(gotE, want.Errors) {
 		return "errors", fmt.Sprintf("errors %v, specification %v", gotE, want.Errors)
+	}
+	// The same (already compiled, already used) policies against a second, unrelated store and request: the answer must
+	// depend on the inputs of this call only, not on what an earlier call evaluated.
+	if c.World2 != nil && c.Loader != "nil-entities" {
+		want2 := ref.Authorize(ids, c.Policies, ref.NewEnv(c.World2.Store, c.World2.Req))
+		dec2, diag2 := cedar.Authorize(iterable, conv.ToEntityMap(c.World2.Store), conv.ToRequest(c.World2.Req))
+		var r2, e2 []string
+		for _, r := range diag2.Reasons {
+			r2 = append(r2, string(r.PolicyID))
+		}
+		for _, e := range diag2.Errors {
+			e2 = append(e2, string(e.PolicyID))
+		}
+		if (dec2 == cedar.Allow) != want2.Allow || !sameMultiset(r2, want2.Reasons) || !sameMultiset(e2, want2.Errors) {
+			return "second-call", fmt.Sprintf("second authorization on the same policies: decision %v reasons %v errors %v, specification allow=%v reasons %v errors %v", dec2, r2, e2, want2.Allow, want2.Reasons, want2.Errors)
+		}
 	}
 	return "", ""
 }
@@ -447,6 +464,14 @@ func genCase(rt *rapid.T) *Case {
 	for i := 0; i < n; i++ {
 		c.Policies = append(c.Policies, gen.GenPolicy(rt, &w, po))
 		c.IDs = append(c.IDs, perm[i])
+	}
+	if rapid.Bool().Draw(rt, "second") {
+		// same principal / resource where possible, so that policies written for the first world stay relevant
+		w2 := gen.GenWorld(rt, 5, o.Val)
+		if rapid.Bool().Draw(rt, "samereq") {
+			w2.Req.Principal, w2.Req.Resource, w2.Req.Action = w.Req.Principal, w.Req.Resource, w.Req.Action
+		}
+		c.World2 = &w2
 	}
 	c.Loader = rapid.SampledFrom([]string{"document", "add", "iterator", "iterator-dup", "nil-entities"}).Draw(rt, "loader")
 	if c.Loader == "add" || c.Loader == "nil-entities" {
